@@ -248,7 +248,9 @@ def suite_fps_cli(seed, tier):
             ref, ref_inv = fps_from_smiles(smiles, n_features=64, skip_invalid=True, pack=pack)
             mode = rng.choice(["single", "parts", "max"]) if not many_parts else rng.choice(["parts", "max"])
             args = ["fps-from-smiles", str(d / "in.smi"), "-o", str(d / "out"), "--name", "x",
-                    "--n-features", "64", "--skip-invalid", "--no-verbose", "--ps", str(rng.choice([1, 2] if tier == "quick" else [1, 2, 3, 8]))]
+                    "--n-features", "64", "--skip-invalid", "--no-verbose", "--ps",
+                    # many parts: more files than 4 x processes, so that a pool worker handles several
+                    str(2 if many_parts else rng.choice([1, 2] if tier == "quick" else [1, 2, 3, 8]))]
             args += ["-p"] if pack else ["-P"]
             if mode == "parts":
                 args += ["-n", str(rng.randint(2, 4) if not many_parts else rng.choice([10, 11, 12]))]
